@@ -84,6 +84,22 @@ fn render_doc(d: &Option<Doc>, indent: &str, out: &mut String) {
     }
 }
 
+/// one attribute list, or - for a quarter of the items, chosen by a hash of the list itself - one
+/// attribute per key (`#[serde(a)] #[serde(b)]`)
+fn push_attr_list(out: &mut String, indent: &str, name: &str, items: &[String]) {
+    if items.is_empty() {
+        return;
+    }
+    let h = items.iter().fold(items.len() as u32 * 7 + name.len() as u32, |h, i| h.wrapping_mul(31).wrapping_add(i.len() as u32));
+    if items.len() >= 2 && h % 4 == 0 {
+        for i in items {
+            out.push_str(&format!("{indent}#[{name}({i})]\n"));
+        }
+    } else {
+        out.push_str(&format!("{indent}#[{name}({})]\n", items.join(", ")));
+    }
+}
+
 fn render_field(f: &Field, m: &Module, indent: &str, out: &mut String) {
     render_doc(&f.docs, indent, out);
     let mut serde: Vec<String> = vec![];
@@ -126,12 +142,8 @@ fn render_field(f: &Field, m: &Module, indent: &str, out: &mut String) {
             }
         }
     }
-    if !serde.is_empty() {
-        out.push_str(&format!("{indent}#[serde({})]\n", serde.join(", ")));
-    }
-    if !ts.is_empty() {
-        out.push_str(&format!("{indent}#[ts({})]\n", ts.join(", ")));
-    }
+    push_attr_list(out, indent, "serde", &serde);
+    push_attr_list(out, indent, "ts", &ts);
     match &f.ident {
         Some(id) => out.push_str(&format!("{indent}pub {id}: {},\n", render_ty(&f.ty, m))),
         None => out.push_str(&format!("{indent}pub {},\n", render_ty(&f.ty, m))),
@@ -236,12 +248,8 @@ pub fn render_type(td: &TypeDef, m: &Module) -> String {
     if !m.serde {
         ts.extend(serde.drain(..));
     }
-    if !serde.is_empty() {
-        out.push_str(&format!("    #[serde({})]\n", serde.join(", ")));
-    }
-    if !ts.is_empty() {
-        out.push_str(&format!("    #[ts({})]\n", ts.join(", ")));
-    }
+    push_attr_list(&mut out, "    ", "serde", &serde);
+    push_attr_list(&mut out, "    ", "ts", &ts);
     if split_concrete {
         for c in &concrete {
             out.push_str(&format!("    #[ts(concrete({c}))]\n"));
@@ -286,9 +294,7 @@ pub fn render_type(td: &TypeDef, m: &Module) -> String {
                 if v.untagged {
                     serde.push("untagged".into());
                 }
-                if !serde.is_empty() {
-                    out.push_str(&format!("        #[{}({})]\n", if m.serde { "serde" } else { "ts" }, serde.join(", ")));
-                }
+                push_attr_list(&mut out, "        ", if m.serde { "serde" } else { "ts" }, &serde);
                 if let Some(t) = &v.as_type {
                     out.push_str(&format!("        #[ts(as = {})]\n", lit(&render_ty(t, m))));
                 }
